@@ -853,7 +853,7 @@ fn free_label(c: &mut Ctl, kind: u64, t: usize, arg: usize) -> Option<Vec<u64>> 
 
 pub fn run_case(ops: &[Vec<u64>]) -> Vec<Vec<u64>> {
     match ops.first() {
-        Some(v) if v.len() == 3 && v[2] == 1 => run_case_t::<PPay>(ops),
+        Some(v) if v.len() >= 3 && v[2] == 1 => run_case_t::<PPay>(ops),
         _ => run_case_t::<SPay>(ops),
     }
 }
